@@ -48,12 +48,18 @@ MIN_COUNTERS = {
               'cond_waits_hung_checked': 300, 'ctx_checks': 20000,
               'mt_histories': 500, 'mt_concurrent_next_calls': 5000,
               'fault_cases': 40, 'fault_release_attempts_that_raised': 20,
-              'pause_resume_cases': 300, 'cond_race_cases': 100},
+              'pause_resume_cases': 300, 'cond_race_cases': 100,
+              'restart_histories': 800, 'restart_function_restarts_compared': 500,
+              'restart_histories_reset_pause_resume': 100,
+              'restart_histories_meter_change_inside': 100},
     'thorough': {'fsm_ops_compared': 4000000, 'fsm_inside_ops': 500000,
                  'cond_waits_hung_checked': 60000, 'ctx_checks': 4000000,
                  'mt_histories': 30000, 'mt_concurrent_next_calls': 300000,
                  'fault_cases': 2000, 'fault_release_attempts_that_raised': 1000,
-                 'pause_resume_cases': 30000, 'cond_race_cases': 5000},
+                 'pause_resume_cases': 30000, 'cond_race_cases': 5000,
+                 'restart_histories': 40000, 'restart_function_restarts_compared': 25000,
+                 'restart_histories_reset_pause_resume': 5000,
+                 'restart_histories_meter_change_inside': 5000},
 }
 
 
@@ -83,6 +89,8 @@ def plan(tier, seed):
         for p, (f, n) in enumerate(split(300, 2)):
             shards.append(dict(name=f'crace{p}', mode='rt', kind='cond-race',
                                first_case=f, n=n, secs=30, hard_timeout=160))
+        shards.append(dict(name='restart0', mode='nrt', kind='restart', first_case=0, n=6000,
+                           secs=30, hard_timeout=160))
     else:
         for p, (f, n) in enumerate(split(2400000, 12)):
             shards.append(dict(name=f'fsm{p}', mode='nrt', kind='fsm', first_case=f,
@@ -108,6 +116,9 @@ def plan(tier, seed):
         for p, (f, n) in enumerate(split(40000, 4)):
             shards.append(dict(name=f'crace{p}', mode='rt', kind='cond-race',
                                first_case=f, n=n, secs=500, hard_timeout=700))
+        for p, (f, n) in enumerate(split(600000, 2)):
+            shards.append(dict(name=f'restart{p}', mode='nrt', kind='restart', first_case=f,
+                               n=n, secs=400, hard_timeout=700))
         for i in range(3):
             shards.append(dict(name=f'crt{i}', mode='rt', kind='cond-rt', secs=120,
                                batch=[20, 40, 60][i], p_yield=[0.0, 0.03, 0.1][i],
@@ -1365,6 +1376,11 @@ def _once(f):
     return g
 
 
+def run_restart(spec, acc):
+    from vf.c11_restart import run_restart as _rr
+    return _rr(spec, acc, 'C11')
+
+
 def run_shard(spec, acc):
     kind = spec['shard']['kind']
     if kind == 'pause-resume':
@@ -1375,6 +1391,8 @@ def run_shard(spec, acc):
         return run_cond_race(spec, acc)
     if kind == 'cond-ctl':
         return run_cond_ctl(spec, acc)
+    if kind == 'restart':
+        return run_restart(spec, acc)
     if kind == 'cond-fault':
         return run_cond_fault(spec, acc)
     if kind == 'fsm':
